@@ -45,7 +45,7 @@ const WATCHDOG: Duration = Duration::from_secs(10);
 pub const HARD_WATCHDOG: Duration = Duration::from_secs(45);
 /// Worker threads that never came back are left behind spinning; after this many the rest of the shard is not executed
 /// (reported as harness trouble `(L (N 93) ..)`, which the driver runs again in fresh processes and counts).
-const MAX_STUCK: usize = 4;
+const MAX_STUCK: usize = 2;
 
 /// What the reader and the watchdog share: set when the budget of 0-byte reads is used up.
 #[derive(Default)]
